@@ -28,12 +28,25 @@ MODEL = ["theories/Caco/NamesCorr.vo"]
 PROOFS = ["theories/Props/C12.vo"]
 STATEMENT_FILES = ["theories/Props/C12.v", "theories/Caco/NamesGen.v"]
 
-ERR = {"": 0, "nofiles": 1, "listerr": 2}
+ERR = {"": 0, "nofiles": 1, "listerr": 2, "badpat": 3}
+KIND = {"f": "TFile", "d": "TDir", "lf": "TLinkFile", "ld": "TLinkDir", "lb": "TLinkBad"}
+
+
+def kind(e):
+    return e.get("k") or ("d" if e["d"] else "f")
+
+
+def ctree(tree):
+    return "[" + "; ".join("{| t_path := %s; t_kind := %s |}" % (cb(e["p"]), KIND[kind(e)]) for e in tree) + "]"
+
+
+def chex(h):
+    return "[" + ";".join(str(b) for b in bytes.fromhex(h)) + "]"
 SKIP_FILES = {".gitignore", "COPYING", "tags", ".DS_Store"}
 
 
 def cb(s):
-    return "[" + ";".join(str(b) for b in s.encode("latin-1")) + "]"
+    return "[" + ";".join(str(b) for b in s.encode("utf-8")) + "]"
 
 
 def cbl(ss):
@@ -51,7 +64,10 @@ def to_coq(c):
     if op == "pjoin":
         return "CPJoin %s %s" % (cbl(c["elems"]), cb(c["out"]))
     if op == "match":
-        return "CMatch %s %s %s %s" % (cb(c.get("pat", "")), cb(c["s"]), cbool(c["bool"]), cbool(bool(c.get("err"))))
+        enc = chex if c.get("hex") else cb
+        return "CMatch %s %s %s %s %s %s" % (enc(c.get("pat", "")), enc(c["s"]), cbool(c["bool"]),
+                                             cbool(c.get("err") == "badpat"), cbool(c.get("fbool", False)),
+                                             cbool(c.get("ferr") == "badpat"))
     if op == "rel":
         return "CRel %s %s %s" % (cb(c["p"]), cb(c["f"]), cb(c["out"]))
     if op == "abs":
@@ -61,8 +77,7 @@ def to_coq(c):
     if op == "suffix":
         return "CSuffix %s %s" % (cb(c["s"]), cbl(c.get("outs")))
     if op == "fileset":
-        tree = "[" + "; ".join("{| t_path := %s; t_dir := %s |}" % (cb(e["p"]), cbool(e["d"]))
-                               for e in c["tree"]) + "]"
+        tree = ctree(c["tree"])
         r = c["rule"]
         rule = "{| r_name := %s; r_files := %s; r_select := %s; r_ignore := %s |}" % (
             cb(r["name"]), cbl(r["files"]), cbl(r["select"]), cbl(r["ignore"]))
@@ -71,8 +86,7 @@ def to_coq(c):
     if op == "build":
         if c.get("err"):
             return None
-        tree = "[" + "; ".join("{| t_path := %s; t_dir := %s |}" % (cb(e["p"]), cbool(e["d"]))
-                               for e in c["tree"]) + "]"
+        tree = ctree(c["tree"])
         r = c["rule"]
         rule = "{| r_name := %s; r_files := %s; r_select := %s; r_ignore := %s |}" % (
             cb(r["name"]), cbl(r["files"]), cbl(r["select"]), cbl(r["ignore"]))
@@ -147,10 +161,12 @@ def oracle_fileset(c):
         return None
     r, p = c["rule"], c["p"]
     if not all(simple(x) for x in r["select"] + r["ignore"]):
+        return None     # classes / escapes: the correspondence with the proved model decides
+    if any(kind(e) not in ("f", "d") for e in c["tree"]):
         return None
-    files = [e["p"] for e in c["tree"] if not e["d"]]
+    files = [e["p"] for e in c["tree"] if kind(e) == "f"]
     entries = [e["p"] for e in c["tree"]]
-    kinds = {e["p"]: e["d"] for e in c["tree"]}
+    kinds = {e["p"]: kind(e) == "d" for e in c["tree"]}
     idirs = [resolve_rel(p, i) for i in r["ignore"] if i.endswith("/")]
     ipats = [resolve_rel(p, i) for i in r["ignore"] if not i.endswith("/")]
 
@@ -205,6 +221,10 @@ def impl_oracle(c):
     if c.get("crash"):
         return ("impl:crash", "panic: %s" % c["crash"][:200])
     op = c["op"]
+    if op in ("fileset", "build") and c.get("outside"):
+        return ("impl:symlink:listed-through-linked-dir",
+                "file set lists %r, which physically lie outside the source tree (reached through a "
+                "symbolic link to a directory)" % c["outside"][:4])
     if op in ("rel", "abs"):
         out = c["out"]
         if not segs_clean(out) or out.startswith("/"):
